@@ -141,7 +141,7 @@ theorem create_coherent_partial {srt : Sorter} (hs : SortSpec srt) {s : State} (
 def hiddenReq : Req :=
   { user := [98, 114, 100, 109, 97, 110] ++ zeros 7, ulevel := 8209, uid := 2, cls := 1,
     name := [72, 105, 100, 100, 101, 110] ++ zeros 7, bclass := [67, 76, 83, 32], btitle := [116], bms := none,
-    attr := 16, level := 0, chess := 0, isGroup := false }
+    attr := 16, level := 0, chess := 0, isGroup := false, autoCpLog := true }
 
 /-- the full `create_coherent` is false: whenever `hiddenReq` is accepted (any well-formed state without
 users, any sorter) the shared copy carries BRD_POSTMASK and the `.BRD` record does not. -/
@@ -264,7 +264,8 @@ theorem bbs_wrapper {srt : Sorter} (hs : SortSpec srt) {s : State} (h : Inv s) (
 /-! #### the creation rules -/
 
 /-- the normalised header: name, class/title layout, parent and chess code as requested; BRD_GROUPBOARD iff a
-group is created; BRD_CPLOG iff not; BRD_HIDE as requested; a caller without PERM_BOARD and every hidden board
+group is created; BRD_CPLOG never for a group, for a board when the site has DEFAULT_AUTOCPLOG or the bit was
+requested; BRD_HIDE as requested; a caller without PERM_BOARD and every hidden board
 lose the post-mask bit and get level 0, otherwise both are as requested; the moderators are the requested ones
 that exist (`sanitizeBMs`). -/
 theorem normalise_rules (users : List Bytes) (q : Req) :
@@ -274,7 +275,7 @@ theorem normalise_rules (users : List Bytes) (q : Req) :
     (normalise users q).gid = q.cls.toNat ∧ (normalise users q).chess = q.chess ∧
     (normalise users q).bm = sanitizeBMs users q.bms ∧
     hasBit (normalise users q).attr BRD_GROUP = q.isGroup ∧
-    hasBit (normalise users q).attr BRD_CPLOG = !q.isGroup ∧
+    hasBit (normalise users q).attr BRD_CPLOG = (!q.isGroup && (q.autoCpLog || hasBit q.attr BRD_CPLOG)) ∧
     hasBit (normalise users q).attr BRD_HIDE = hasBit q.attr BRD_HIDE ∧
     hasBit (normalise users q).attr BRD_POSTMASK =
       (hasBit q.ulevel PERM_BOARD && !hasBit q.attr BRD_HIDE && hasBit q.attr BRD_POSTMASK) ∧
@@ -290,6 +291,12 @@ theorem normalise_rules (users : List Bytes) (q : Req) :
   · show buildLevel q = _
     rw [hl, hr]
     cases hasBit q.ulevel PERM_BOARD <;> cases hasBit q.attr BRD_HIDE <;> rfl
+
+/-- the configuration the default build does not have: with DEFAULT_AUTOCPLOG = false an ordinary board keeps
+a requested BRD_CPLOG (and does not get the bit when it was not requested). -/
+theorem cplog_without_autocplog (users : List Bytes) (q : Req) (hg : q.isGroup = false) (ha : q.autoCpLog = false) :
+    hasBit (normalise users q).attr BRD_CPLOG = hasBit q.attr BRD_CPLOG := by
+  rw [(normalise_rules users q).2.2.2.2.2.2.1, hg, ha]; simp
 
 /-! #### histories -/
 
